@@ -157,7 +157,16 @@ def simulate_event(sess, step, store):  # noqa: C901
     elif need_v:
         Vused = sess.get("solve", jit)(p)
     f = sess.get(target, jit)
+    steps = []
+    try:
+        import lcm._verif as hooks
+
+        hooks.drain()
+    except Exception:  # noqa: BLE001
+        hooks = None
     df = f(p, **kwargs)
+    if hooks is not None and step.get("record_steps"):
+        steps = _sim_steps(m, hooks.drain())
     store["df"] = df
     sn = MDL.state_names(m)
     cn = MDL.choice_names(m)
@@ -180,7 +189,31 @@ def simulate_event(sess, step, store):  # noqa: C901
             "V": [_flat(v) for v in Vused] if (Vused is not None and need_v) else [],
             "N": n_agents, "init": {k: [MDL.q(x) for x in v] for k, v in init.items()},
             "targets": list(targets), "cols": [str(c) for c in df.columns], "index": index, "rows": rows,
-            "index_names": [str(x) for x in df.index.names]}
+            "index_names": [str(x) for x in df.index.names], "steps": steps}
+
+
+def _sim_steps(m, evs):
+    """Intermediate state of every simulated period as recorded by the hooks sim_space / sim_policy."""
+    import numpy as np
+
+    sp = {int(e["period"]): e for e in evs if e["e"] == "sim_space"}
+    po = {int(e["period"]): e for e in evs if e["e"] == "sim_policy"}
+    if sorted(sp) != list(range(m["T"])) or sorted(po) != list(range(m["T"])):
+        return []
+    cn = set(MDL.choice_names(m))
+    out = []
+    for t in range(m["T"]):
+        s, q_ = sp[t], po[t]
+        anyv = next(iter(s["sparse_vars"].values()))
+        seg = s["segments"]
+        out.append({
+            "nrows": int(np.asarray(anyv).shape[0]),
+            "sparse": {k: [MDL.enc(x) for x in np.asarray(v, dtype=np.float64).ravel()] for k, v in s["sparse_vars"].items() if k in cn},
+            "segments": [int(x) for x in np.asarray(seg["segment_ids"]).ravel()] if seg is not None else [],
+            "ccv": [MDL.enc(x) for x in np.asarray(q_["ccv"], dtype=np.float64).ravel()],
+            "value": [MDL.enc(x) for x in np.asarray(q_["value"], dtype=np.float64).ravel()],
+        })
+    return out
 
 
 def run_case(spec):
